@@ -20,6 +20,9 @@ CORRESPONDENCE (model evaluated inside Coq on the same inputs): header-word tabl
   doubles, the regenerated sample axis, source code / store_headers / table route per file type, SeismicFile.open dispatch on
   real files with every extension spelling, the pyzgy accessor model (emu_iline).
 ASSUMPTIONS validated: np.linspace(.., dtype=np.intc) on arithmetic axes (lin_exact), np.meshgrid 'xy', linspace(0, n-1, n).
+WINDOWED conversions (min_il, max_il, min_xl, max_xl; fixtures and generated cubes; windows starting at 0 and not, one block and
+  several): all oracles about the sub-cube (samples = ZFP image of the sub-cube, axes = sub-ranges, headers of window trace t = the
+  source handle's header of its source trace, footer arrays one word per window trace, hash = sha1 of the window's samples).
 KNOWN FINDING D53-zgy-negative-inline-number: guard = every inline number of the source >= 0 (pyzgy's accessor takes a negative
   key as a position from the end); outside the guard the oracle violation is reported with that key (pid C01 only).
 """
@@ -162,11 +165,18 @@ def zgy_specs():
 
 
 SETTINGS_Q = [(4, (4, 4, -1)), (2, (64, 64, 4)), (8, (8, 8, -1)), (16, (4, 4, -1)), (1, (16, 16, -1))]
+WSETTINGS = [(4, (4, 4, -1)), (2, (64, 64, 4)), (8, (8, 8, -1))]
+# conversion windows (min_il, max_il, min_xl, max_xl) in ordinals: starting at 0 and not, reaching the last line and not, inside one
+# 4-block and across several, per generated cube (by name) and for the 5 x 5 fixtures
+WINDOWS = {'g0': [(1, 4, 2, 6), (0, 3, 0, 6)], 'g1': [(0, 4, 1, 9), (2, 4, 0, 5)], 'g2': [(1, 7, 3, 7), (0, 7, 0, 2)], 'g3': [(0, 2, 1, 3)],
+           'g4': [(2, 9, 1, 4)], 'g5': [(1, 6, 2, 8)], 'g6': [(3, 64, 0, 3), (0, 65, 1, 3)]}
+FIXTURE_WINDOWS = [(1, 4, 0, 3), (0, 5, 2, 5), (0, 2, 0, 5), (3, 5, 1, 4)]
 
 
 # ---------------------------------------------------------------- one conversion with all oracles
-def check_conversion(case, src_path, ft, bpv, bs, written=None, mode='heuristic'):
-    """ft: 'ZGY' | 'VDS'.  written: the array given to the ZGY writer (None for fixtures)."""
+def check_conversion(case, src_path, ft, bpv, bs, written=None, mode='heuristic', window=None):
+    """ft: 'ZGY' | 'VDS'.  written: the array given to the ZGY writer (None for fixtures).
+    window: (min_il, max_il, min_xl, max_xl) in ordinals of the source, or None (whole file): every oracle is then about the sub-cube."""
     opener = pyzgy.open if ft == 'ZGY' else pyvds.open
     conv = ZgyConverter if ft == 'ZGY' else VdsConverter
     out = os.path.join(D, 'out.sgz')
@@ -181,10 +191,23 @@ def check_conversion(case, src_path, ft, bpv, bs, written=None, mode='heuristic'
     if written is not None and not bits_equal(src, written):
         R.violation('assumption', case, 'pyzgy does not read back the cube that was written')
         return
+    full = (len(s_il), len(s_xl))
+    src_axes = (s_il, s_xl)
+    if window is not None:
+        mi, Mi, mx, Mx = window
+        n_xl_src = len(s_xl)
+        src = np.ascontiguousarray(src[mi:Mi, mx:Mx, :])
+        hdrs = [hdrs[i * n_xl_src + x] for i in range(mi, Mi) for x in range(mx, Mx)]      # the source traces of the window, in trace order
+        s_il, s_xl = s_il[mi:Mi], s_xl[mx:Mx]
+        s_tc = (Mi - mi) * (Mx - mx)
     guard = bool(np.all(s_il >= 0))        # D53: the emulators' accessor is wrong for negative line numbers
     try:
-        with conv(src_path) as c:
-            quiet(c.run, out, bits_per_voxel=bpv, blockshape=bs, header_detection=mode)
+        if window is None:
+            with conv(src_path) as c:
+                quiet(c.run, out, bits_per_voxel=bpv, blockshape=bs, header_detection=mode)
+        else:
+            with conv(src_path, min_il=window[0], max_il=window[1], min_xl=window[2], max_xl=window[3]) as c:
+                quiet(c.run, out, bits_per_voxel=bpv, blockshape=bs, header_detection=mode)
     except Exception as e:
         if not guard:
             R.violation('oracle', case, f'conversion raised {type(e).__name__}: {e}', finding_key=KEY_D53)
@@ -194,7 +217,7 @@ def check_conversion(case, src_path, ft, bpv, bs, written=None, mode='heuristic'
             R.violation('oracle', case, f'conversion raised {type(e).__name__}: {e}')
         return
     try:
-        _check_written(case, out, ft, bpv, bs, mode, guard, src, s_il, s_xl, s_z, s_tc, hdrs, zinc, corners, n_samples)
+        _check_written(case, out, ft, bpv, bs, mode, guard, src, s_il, s_xl, s_z, s_tc, hdrs, zinc, corners, n_samples, window, full, src_axes)
     except Exception as e:
         import traceback
         tb = traceback.extract_tb(e.__traceback__)[-1]
@@ -204,7 +227,7 @@ def check_conversion(case, src_path, ft, bpv, bs, written=None, mode='heuristic'
         os.remove(out)
 
 
-def _check_written(case, out, ft, bpv, bs, mode, guard, src, s_il, s_xl, s_z, s_tc, hdrs, zinc, corners, n_samples):
+def _check_written(case, out, ft, bpv, bs, mode, guard, src, s_il, s_xl, s_z, s_tc, hdrs, zinc, corners, n_samples, window, full, src_axes):
     bad = []
     sp = SpecFile(out)
     rate = float(sp.rate)
@@ -287,10 +310,13 @@ def _check_written(case, out, ft, bpv, bs, mode, guard, src, s_il, s_xl, s_z, s_
         nz = [(int(k), int(v), int(ref)) for k, v, ref in table if (v, ref) != (0, 0)]
         expect(f'model_zgy_table {n_samples} {coq_float(zinc)}', nz, case, 'header-word table')
         cl = '[' + '; '.join(coq_float(c[j]) for c in corners for j in (0, 1)) + ']'
-        d_il = int(s_il[1] - s_il[0])
-        d_xl = int(s_xl[1] - s_xl[0])
+        f_il, f_xl = src_axes                     # the axes of the whole source file
+        d_il = int(f_il[1] - f_il[0])
+        d_xl = int(f_xl[1] - f_xl[0])
         arrs = [(f, [int(x) for x in sp.footer_array(k)]) for k, f in enumerate(stored)] if sp.nha == len(stored) else None
-        expect(f'model_zgy_arrays {cl} (arith_lax {zl(s_il[0])} {zl(d_il)} {len(s_il)}) (arith_lax {zl(s_xl[0])} {zl(d_xl)} {len(s_xl)})',
+        wn = window if window is not None else (0, full[0], 0, full[1])
+        expect(f'model_zgy_warrays {cl} (arith_lax {zl(f_il[0])} {zl(d_il)} {full[0]}) (arith_lax {zl(f_xl[0])} {zl(d_xl)} {full[1]}) '
+               f'{{| wi0 := {wn[0]}; wi1 := {wn[1]}; wx0 := {wn[2]}; wx1 := {wn[3]} |}}',
                arrs, case, 'stored arrays (order and contents)')
         d84, d92 = struct.unpack('<dd', raw[84:100])
         for off, dv in ((84, d84), (92, d92)):
@@ -303,7 +329,9 @@ def _check_written(case, out, ft, bpv, bs, mode, guard, src, s_il, s_xl, s_z, s_
         for off in (84, 92):
             expect(f'model_f64_same 30 {coq_float(1.5)} {coq_float(4.0)} {off} {coq_float(struct.unpack("<d", raw[off:off + 8])[0])}', True, case,
                    f'double at {off} of a VDS-sourced file')
-    R.case((case['src'], bpv, tuple(bs)), sample=dict(case, rate=rate, shape=list(src.shape), stored=stored))
+    R.case((case['src'], bpv, tuple(bs), tuple(window) if window else None), sample=dict(case, rate=rate, shape=list(src.shape), stored=stored))
+    if window is not None:
+        R.count('windowed')
     R.count(ft)
 
 
@@ -469,13 +497,18 @@ def check_accessor(path, data, case):
 
 
 # ---------------------------------------------------------------- main
-def run_generated(spec, settings):
+def run_generated(spec, settings, windows=None):
     p = os.path.join(D, spec['name'] + '.zgy')
     data = tagged_cube(spec['shape'], a.seed * 100 + int(spec['name'][1:]))
     mk_zgy(p, data, spec['zstart'], spec['zinc'], spec['astart'], spec['ainc'], spec['corners'])
     for bpv, bs in settings:
         case = {'kind': 'zgy_generated', 'src': spec['name'], 'spec': {k: v for k, v in spec.items()}, 'bpv': bpv, 'blockshape': list(bs), 'seed': a.seed}
         check_conversion(case, p, 'ZGY', bpv, bs, written=data)
+    for k, wn in enumerate(windows or []):
+        bpv, bs = WSETTINGS[k % len(WSETTINGS)]
+        case = {'kind': 'zgy_generated', 'src': spec['name'], 'spec': {k2: v for k2, v in spec.items()}, 'bpv': bpv, 'blockshape': list(bs), 'seed': a.seed,
+                'window': list(wn)}
+        check_conversion(case, p, 'ZGY', bpv, bs, written=data, window=tuple(wn))
     if use_model:
         check_accessor(p, data, {'kind': 'accessor', 'src': spec['name']})
     os.remove(p)
@@ -504,9 +537,12 @@ def main():
             sp = c['spec']
             sp = dict(sp, shape=tuple(sp['shape']), astart=tuple(sp['astart']), ainc=tuple(sp['ainc']),
                       corners=[tuple(x) for x in sp['corners']] if sp.get('corners') else None)
-            run_generated(sp, [(c['bpv'], tuple(c['blockshape']))])
+            if c.get('window'):
+                run_generated(sp, [], [tuple(c['window'])])
+            else:
+                run_generated(sp, [(c['bpv'], tuple(c['blockshape']))])
         elif k == 'fixture':
-            check_conversion(c, os.path.join(FIX, c['rel']), c['ft'], c['bpv'], tuple(c['blockshape']))
+            check_conversion(c, os.path.join(FIX, c['rel']), c['ft'], c['bpv'], tuple(c['blockshape']), window=tuple(c['window']) if c.get('window') else None)
         elif k == 'sgz_input':
             check_sgz_input()
         elif k in ('open', 'converter'):
@@ -533,6 +569,16 @@ def main():
         for bpv, bs in (sets if not thorough else SETTINGS_Q):
             case = {'kind': 'fixture', 'src': 'zgy/' + nm, 'rel': 'zgy/' + nm, 'ft': 'ZGY', 'bpv': bpv, 'blockshape': list(bs)}
             check_conversion(case, os.path.join(FIX, 'zgy', nm), 'ZGY', bpv, bs)
+    # windowed conversions of the fixtures (D54: header arrays of the window; the VDS route captures headers per trace)
+    fw = FIXTURE_WINDOWS if thorough else FIXTURE_WINDOWS[:3]
+    for k, wn in enumerate(fw):
+        nm = ['small-8bit.zgy', 'small-float-samplerate.zgy', 'small-32bit.zgy', 'small-16bit.zgy'][k % 4]
+        bpv, bs = WSETTINGS[k % len(WSETTINGS)]
+        case = {'kind': 'fixture', 'src': 'zgy/' + nm, 'rel': 'zgy/' + nm, 'ft': 'ZGY', 'bpv': bpv, 'blockshape': list(bs), 'window': list(wn)}
+        check_conversion(case, os.path.join(FIX, 'zgy', nm), 'ZGY', bpv, bs, window=wn)
+    for wn in ([(1, 4, 0, 3), (0, 5, 2, 5)] if thorough else [(1, 4, 0, 3)]):
+        case = {'kind': 'fixture', 'src': 'vds/small.vds', 'rel': 'vds/small.vds', 'ft': 'VDS', 'bpv': 4, 'blockshape': [4, 4, -1], 'window': list(wn)}
+        check_conversion(case, os.path.join(FIX, 'vds', 'small.vds'), 'VDS', 4, (4, 4, -1), window=wn)
     # generated ZGY cubes
     specs = zgy_specs()
     for i, spec in enumerate(specs):
@@ -540,7 +586,7 @@ def main():
             sets = SETTINGS_Q
         else:
             sets = [SETTINGS_Q[i % len(SETTINGS_Q)], SETTINGS_Q[(i + 2) % len(SETTINGS_Q)]]
-        run_generated(spec, sets)
+        run_generated(spec, sets, WINDOWS.get(spec['name']))
     check_sgz_input()
     if a.pid.startswith('C01'):
         run_negative()
